@@ -423,6 +423,9 @@ func search(t *testing.T, p *Prop, job *Job, emit func(any), tick func()) {
 		sum.Runs++
 		if o.Discarded {
 			sum.Discarded++
+			for k, v := range o.Probes { // why a case was discarded is reported too
+				sum.Probes[k] += v
+			}
 			if sum.Discarded <= 2 && o.Sample != nil {
 				b, _ := json.Marshal(o.Sample)
 				fmt.Fprintf(os.Stderr, "VERIF-DISCARDED run=%d %s\n", i, b)
